@@ -578,3 +578,29 @@ size_t lenext_read_break_bad(const uint8_t* ip) {
     for (;;) { uint8_t s = *ip++; len += s; if (s < 255) break; if (len > 100000) break; }
     return len;
 }
+
+/* ---- R38 varint writers / readers (rules/varint.py) */
+size_t ctl_write_varint_good(uint8_t* p, uint32_t value) {
+    uint8_t* s = p;
+    if (value < 0x80) { *p = (uint8_t)value; return 1; }          /* one-byte fast path, right bound */
+    while (value >= 0x80) { *p++ = (uint8_t)(value | 0x80); value >>= 7; }
+    *p++ = (uint8_t)value;
+    return (size_t)(p - s);
+}
+size_t ctl_write_varint_bad(uint8_t* p, uint32_t value) {
+    uint8_t* s = p;
+    if (value <= 0x80) { *p = (uint8_t)value; return 1; }         /* 128 needs two bytes */
+    while (value >= 0x80) { *p++ = (uint8_t)(value | 0x80); value >>= 7; }
+    *p++ = (uint8_t)value;
+    return (size_t)(p - s);
+}
+size_t ctl_read_varint_good(const uint8_t* p, const uint8_t* end, uint32_t* value) {
+    uint32_t r = 0; int shift = 0; const uint8_t* s = p;
+    while (p < end && shift < 35) { uint8_t b = *p++; r |= (uint32_t)(b & 0x7F) << shift; if (!(b & 0x80)) { *value = r; return (size_t)(p - s); } shift += 7; }
+    return 0;
+}
+size_t ctl_read_varint_bad(const uint8_t* p, const uint8_t* end, uint32_t* value) {
+    uint32_t r = 0; int shift = 0; const uint8_t* s = p;
+    while (p < end && shift < 28) { uint8_t b = *p++; r |= (uint32_t)(b & 0x7F) << shift; if (!(b & 0x80)) { *value = r; return (size_t)(p - s); } shift += 7; }
+    return 0;                                                     /* gives up before the fifth byte of a 32-bit value */
+}
